@@ -103,6 +103,7 @@ type interpreter struct {
 	initDone         map[*ssa.Package]bool
 	lenient          int // >0 while running initialisers of packages outside the allow-list
 	hostCounters     map[string]int64
+	fpMemo           map[*term]bool
 }
 
 type deferred struct {
@@ -218,10 +219,10 @@ func visitInstr(fr *frame, instr ssa.Instruction) continuation {
 		fr.env[instr] = fr.i.binop(instr.Op, instr.X.Type(), fr.get(instr.X), fr.get(instr.Y))
 
 	case *ssa.Call:
-		fn, args := prepareCall(fr, &instr.Call)
 		if fr.i.lenient > 0 {
-			fr.env[instr] = lenientCall(fr, instr, fn, args)
+			fr.env[instr] = lenientCall(fr, instr)
 		} else {
+			fn, args := prepareCall(fr, &instr.Call)
 			fr.env[instr] = call(fr.i, fr, instr.Pos(), fn, args)
 		}
 
@@ -749,7 +750,7 @@ func doRecover(caller *frame) value {
 // lenientCall is used while initialising packages that are outside the
 // interpretable allow-list: a call that hits an unsupported construct yields
 // the zero value of its type instead of ending the path.
-func lenientCall(fr *frame, instr *ssa.Call, fn value, args []value) (res value) {
+func lenientCall(fr *frame, instr *ssa.Call) (res value) {
 	defer func() {
 		if r := recover(); r != nil {
 			if ab, ok := r.(pathAbort); ok && len(ab.reason) >= 11 && ab.reason[:11] == "unsupported" {
@@ -764,8 +765,17 @@ func lenientCall(fr *frame, instr *ssa.Call, fn value, args []value) (res value)
 				res = zero(instr.Type())
 				return
 			}
+			if _, ok := r.(runtimeErr); ok {
+				res = zero(instr.Type())
+				return
+			}
+			if _, ok := r.(targetPanic); ok {
+				res = zero(instr.Type())
+				return
+			}
 			panic(r)
 		}
 	}()
+	fn, args := prepareCall(fr, &instr.Call)
 	return call(fr.i, fr, instr.Pos(), fn, args)
 }
